@@ -10,9 +10,9 @@ def chars (h : String) : Option (List Char) :=
 
 def sexpr : Expr → String
   | .tag s => "(t " ++ String.ofList s ++ ")"
-  | .not x => "(! " ++ sexpr x ++ ")"
-  | .and x y => "(& " ++ sexpr x ++ " " ++ sexpr y ++ ")"
-  | .or x y => "(| " ++ sexpr x ++ " " ++ sexpr y ++ ")"
+  | .not x => "(not " ++ sexpr x ++ ")"
+  | .and x y => "(and " ++ sexpr x ++ " " ++ sexpr y ++ ")"
+  | .or x y => "(or " ++ sexpr x ++ " " ++ sexpr y ++ ")"
 
 def errClass : Err → String
   | .notConstraint => "notconstraint"
